@@ -7,6 +7,7 @@ mod c08;
 mod refdb;
 mod c13;
 mod c19;
+mod c23;
 mod c32;
 mod dbops;
 mod storops;
@@ -26,6 +27,7 @@ fn main() {
         "C08" | "C09" | "C10" | "C11" | "C18" => c08::run(&args),
         "C13" => c13::run(&args),
         "C19" => c19::run(&args),
+        "C23" => c23::run(&args),
         "C32" => c32::run(&args),
         other => engine::machinery_failure(&format!("core_checks: unknown property {other}")),
     };
